@@ -34,24 +34,34 @@ type Obligation struct {
 
 type Script struct {
 	decls    []string
+	sigs     map[string]string
 	declared map[string]bool
 	facts    []string
 	obls     []*Obligation
 }
 
-func newScript() *Script { return &Script{declared: map[string]bool{}} }
+func newScript() *Script { return &Script{declared: map[string]bool{}, sigs: map[string]string{}} }
 
 func (s *Script) declare(name, sig string) {
 	if s.declared[name] {
 		return
 	}
 	s.declared[name] = true
+	s.sigs[name] = sig
 	s.decls = append(s.decls, "(declare-fun "+name+" "+sig+")")
 }
 
 func (s *Script) fact(f string) {
 	if f == "true" || f == "" {
 		return
+	}
+	// safety net: a fact must not mention a quantifier-bound variable or spec placeholder outside its binder
+	if strings.Contains(f, "?") {
+		for _, m := range boundVarRe.FindAllString(f, -1) {
+			if !strings.Contains(f, "("+m+" Int)") && !strings.Contains(f, "("+m+" Bool)") {
+				return
+			}
+		}
 	}
 	s.facts = append(s.facts, f)
 }
@@ -312,13 +322,50 @@ func (tr *Tr) subRefOfLoc(l Loc) string {
 	return "(" + fn + " " + l.Ref + ")"
 }
 
+// storeRec remembers how a named heap version was produced, for syntactic read-over-write simplification.
+type storeRec struct {
+	base, ref, idx, val string
+}
+
 func (tr *Tr) loadLeaf(st *State, l Loc, lf leaf) string {
 	switch l.Kind {
 	case LField, LCell:
 		h := tr.heapVar(st, l.Prefix+lf.suffix, arr1(lf.sort))
+		for cur := h; ; {
+			rec, ok := tr.stores[cur]
+			if !ok {
+				break
+			}
+			if rec.ref == l.Ref {
+				return rec.val
+			}
+			if tr.freshRefs[rec.ref] && tr.freshRefs[l.Ref] {
+				cur = rec.base
+				continue
+			}
+			break
+		}
 		return sSel(h, l.Ref)
 	case LElem:
 		h := tr.heapVar(st, l.Prefix+lf.suffix, arr2(lf.sort))
+		for cur := h; ; {
+			rec, ok := tr.stores[cur]
+			if !ok || rec.idx == "" {
+				break
+			}
+			if rec.ref == l.Ref && rec.idx == l.Idx {
+				return rec.val
+			}
+			if rec.ref == l.Ref && isLiteral(rec.idx) && isLiteral(l.Idx) {
+				cur = rec.base
+				continue
+			}
+			if rec.ref != l.Ref && tr.freshRefs[rec.ref] && tr.freshRefs[l.Ref] {
+				cur = rec.base
+				continue
+			}
+			break
+		}
 		return sSel(sSel(h, l.Ref), l.Idx)
 	}
 	panic("loadLeaf")
@@ -375,11 +422,15 @@ func (tr *Tr) storeLeaf(st *State, l Loc, lf leaf, term string) {
 	case LField, LCell:
 		name := l.Prefix + lf.suffix
 		h := tr.heapVar(st, name, arr1(lf.sort))
-		tr.setHeapVar(st, name, arr1(lf.sort), tr.nameTerm(name, arr1(lf.sort), sStore(h, l.Ref, term)))
+		sym := tr.nameTerm(name, arr1(lf.sort), sStore(h, l.Ref, term))
+		tr.stores[sym] = storeRec{base: h, ref: l.Ref, val: term}
+		tr.setHeapVar(st, name, arr1(lf.sort), sym)
 	case LElem:
 		name := l.Prefix + lf.suffix
 		h := tr.heapVar(st, name, arr2(lf.sort))
-		tr.setHeapVar(st, name, arr2(lf.sort), tr.nameTerm(name, arr2(lf.sort), sStore(h, l.Ref, sStore(sSel(h, l.Ref), l.Idx, term))))
+		sym := tr.nameTerm(name, arr2(lf.sort), sStore(h, l.Ref, sStore(sSel(h, l.Ref), l.Idx, term)))
+		tr.stores[sym] = storeRec{base: h, ref: l.Ref, idx: l.Idx, val: term}
+		tr.setHeapVar(st, name, arr2(lf.sort), sym)
 	default:
 		panic("storeLeaf")
 	}
